@@ -582,7 +582,11 @@ class ConcurrentVector {
     ++e;
     auto it = begin();
     it += (pos - it);
-    return std::move(pos + 1, const_iterator(e), it);
+    // Shift the tail down, then destroy the vacated (moved-from) last element. The result is the
+    // iterator following the removed element, i.e. the one now at pos (as for std::vector).
+    auto newEnd = std::move(pos + 1, const_iterator(e), it);
+    newEnd->~T();
+    return it;
   }
 
   /**
@@ -602,17 +606,17 @@ class ConcurrentVector {
     }
     it += startIdx;
 
+    auto oldEnd = end();
     auto e_it = std::move(last, cend(), it);
 
-    if (e_it < last) {
-      // remove any values that were not already moved into
-      do {
-        --last;
-        last->~T();
-      } while (e_it != last);
+    // Everything from the end of the shifted tail to the old end is vacated (moved-from or erased) and
+    // must be destroyed; the result is the iterator following the last removed element, i.e. the one
+    // now at first (as for std::vector).
+    for (auto d = e_it; d != oldEnd; ++d) {
+      d->~T();
     }
     size_.fetch_sub(len, std::memory_order_relaxed);
-    return e_it;
+    return it;
   }
 
   /**
